@@ -1,6 +1,11 @@
 import PromModel.Tsdb.Intervals
+import PromProofs.IntervalsAdd
+import PromProofs.IntervalsIter
+import PromProofs.IntervalsJudge
+import PromProofs.Tombstones
+import PromProofs.TombstonesTrunc
 /-
-  C20 — Deletion removes exactly the requested data (mechanism level: `Intervals.Add`).
+  C20 — Deletion removes exactly the requested data (mechanism level).
   Property theorems only; helper lemmas live in PromProofs.
 -/
 namespace Prom.C20
@@ -17,5 +22,179 @@ theorem add_after_fix_witness :
 /-- Adding to the empty set yields the singleton. -/
 theorem add_empty (n : Interval) : add [] n = .ok [n] := by
   simp [add, addG]
+
+/-- Specification of the transcribed `sort.Search(n, f)` for a monotone predicate: it returns the
+    least index in `[0,n)` satisfying `f`, or `n` if there is none. -/
+theorem goSearch_least (n : Nat) (f : Nat → Bool)
+    (mono : ∀ a b, a ≤ b → b < n → f a = true → f b = true) :
+    (goSearch n f = n ∧ ∀ k, k < n → f k = false) ∨
+    (goSearch n f < n ∧ f (goSearch n f) = true ∧ ∀ k, k < goSearch n f → f k = false) :=
+  Prom.Intervals.goSearch_least n f mono
+
+example : goSearch 5 (fun i => decide (3 ≤ i)) = 3 := by decide
+example : goSearch 5 (fun _ => false) = 5 := by decide
+
+/--
+  `Intervals.Add` (current code, after the F1 fix), for ALL canonical sets with int64 endpoints and
+  ALL valid int64 intervals — no guard on `MaxInt64`/`MinInt64`: it does not panic, the result is
+  canonical (sorted, non-overlapping, non-adjacent) and covers exactly the old coverage plus the
+  requested range.
+-/
+theorem add_canonical (xs : Intervals) (n : Interval)
+    (hc : Canon xs) (hxs : ∀ x ∈ xs, I64 x.mint ∧ I64 x.maxt) (_hn : I64 n.mint ∧ I64 n.maxt)
+    (hv : n.mint ≤ n.maxt) :
+    ∃ ys, add xs n = .ok ys ∧ Canon ys ∧
+      ∀ t, covers ys t ↔ covers xs t ∨ (n.mint ≤ t ∧ t ≤ n.maxt) :=
+  add_correct xs n hc hxs hv
+
+/-- Hypotheses of `add_canonical` are met by a non-trivial state at both int64 extremes
+    (merge of two intervals, `maxt = MaxInt64`; the F1 input). -/
+example : Canon [⟨MinI64, 2⟩, ⟨10, 20⟩] ∧ (∀ x ∈ ([⟨MinI64, 2⟩, ⟨10, 20⟩] : Intervals), I64 x.mint ∧ I64 x.maxt) ∧
+    (I64 (5 : Int) ∧ I64 MaxI64) ∧ (5 : Int) ≤ MaxI64 ∧
+    add [⟨MinI64, 2⟩, ⟨10, 20⟩] ⟨5, MaxI64⟩ = .ok [⟨MinI64, 2⟩, ⟨5, MaxI64⟩] := by
+  refine ⟨by decide, ?_, ?_, ?_, by rfl⟩ <;> simp [I64, MinI64, MaxI64]
+
+/-- The int64 range of all endpoints is preserved (so `add_canonical` can be iterated). -/
+theorem add_in_range (xs ys : Intervals) (n : Interval)
+    (hxs : ∀ x ∈ xs, I64 x.mint ∧ I64 x.maxt) (hn : I64 n.mint ∧ I64 n.maxt)
+    (h : add xs n = .ok ys) : ∀ y ∈ ys, I64 y.mint ∧ I64 y.maxt :=
+  add_range xs ys n hxs hn h
+
+/-! ### InBounds / IsSubrange / iterator filtering -/
+
+theorem inBounds_iff (tr : Interval) (t : Int) : tr.inBounds t = true ↔ tr.mint ≤ t ∧ t ≤ tr.maxt :=
+  Prom.Intervals.inBounds_iff tr t
+
+/-- On a canonical deletion set, `IsSubrange` says exactly "every timestamp of the range is deleted". -/
+theorem isSubrange_iff_all_covered (tr : Interval) (dr : Intervals) (hc : Canon dr) (hv : tr.mint ≤ tr.maxt) :
+    tr.isSubrange dr = true ↔ ∀ t, tr.mint ≤ t → t ≤ tr.maxt → covers dr t :=
+  Prom.Intervals.isSubrange_iff tr dr hc hv
+
+/-- Without canonicity the equivalence fails (two adjacent intervals cover [1,4], no single one does):
+    this is why `Add` must merge adjacent intervals. -/
+theorem isSubrange_needs_canonical_witness :
+    (⟨1, 4⟩ : Interval).isSubrange [⟨1, 2⟩, ⟨3, 4⟩] = false ∧
+    rangeCoveredB [⟨1, 2⟩, ⟨3, 4⟩] 1 4 = true := by decide
+
+/-- `DeletedIterator`: for increasing sample timestamps and a canonical deletion set, `Next()` until
+    exhaustion returns a sample iff it is not covered — all samples, any number of intervals. -/
+theorem deleted_iterator_next (ts : List Int) (ivs : Intervals)
+    (hs : ts.Pairwise (· < ·)) (hc : Canon ivs) :
+    drain ts ivs = ts.filter (fun t => !coversB ivs t) :=
+  drain_eq_filter ts ivs hs hc
+
+/-- Same after an initial `Seek(s)`: exactly the uncovered samples at or after `s`. -/
+theorem deleted_iterator_seek (s : Int) (ts : List Int) (ivs : Intervals)
+    (hs : ts.Pairwise (· < ·)) (hc : Canon ivs) :
+    seekDrain s ts ivs = ts.filter (fun t => decide (s ≤ t) && !coversB ivs t) :=
+  seekDrain_eq_filter s ts ivs hs hc
+
+example : ([1, 2, 3, 5, 8, 9] : List Int).Pairwise (· < ·) ∧ Canon [⟨2, 3⟩, ⟨8, 8⟩] ∧
+    drain [1, 2, 3, 5, 8, 9] [⟨2, 3⟩, ⟨8, 8⟩] = [1, 5, 9] ∧
+    seekDrain 3 [1, 2, 3, 5, 8, 9] [⟨2, 3⟩, ⟨8, 8⟩] = [5, 9] := by decide
+
+/-! ### the judge accepts the model (statement-as-oracle, suite `intervals`) -/
+
+/--
+  For EVERY sequence of operations whose `add` arguments are int64 values (valid or not, any length,
+  interleaved with resets, IsSubrange/InBounds queries and iterator runs), the property predicate
+  `verdict` evaluated on the model's own outputs reports no violation: after each valid add the set is
+  canonical, covers exactly the union of the requested ranges, never panics; IsSubrange and the
+  iterator agree with that union.
+-/
+theorem model_holds (ops : List Op) (hr : ∀ op ∈ ops, OpInRange op) :
+    verdict [] 0 ops (runOps [] ops) = none :=
+  verdict_runOps ops [] [] 0 inv_nil hr
+
+/-- Non-vacuity: a concrete history hitting merge at both extremes, and the judge really rejects a
+    wrong answer for it (a non-merged adjacent pair, and a lost range). -/
+example :
+    let ops : List Op := [.add 1 2, .add MinI64 0, .add 5 MaxI64, .sub 1 2, .iter (some 0) [-1, 0, 3, 4, 5]]
+    (∀ op ∈ ops, OpInRange op) ∧
+    runOps [] ops = [.set [⟨1, 2⟩], .set [⟨MinI64, 2⟩], .set [⟨MinI64, 2⟩, ⟨5, MaxI64⟩], .bool true, .ts [3, 4]] ∧
+    (verdict [] 0 ops [.set [⟨1, 2⟩], .set [⟨MinI64, 0⟩, ⟨1, 2⟩]]).isSome ∧
+    (verdict [] 0 ops [.set [⟨1, 2⟩], .set [⟨MinI64, 0⟩]]).isSome := by
+  refine ⟨?_, by decide, by decide, by decide⟩
+  intro op hop
+  simp only [List.mem_cons, List.mem_nil_iff, or_false] at hop
+  rcases hop with rfl | rfl | rfl | rfl | rfl <;> simp [OpInRange, I64, MinI64, MaxI64]
+
+/-! ### tombstone codec and file: read back exactly what was written -/
+
+open Prom.Tombstones in
+/-- `Decode (Encode x) = x` for every well-formed store (any number of series and intervals, refs up
+    to 2^64-1, timestamps over all of int64). -/
+theorem tombstone_codec_roundtrip (st : Stones) (h : WF st) : decode (encode st) = .ok st :=
+  decode_encode st h
+
+open Prom.Tombstones in
+/-- `ReadTombstones (WriteFile x) = x`, with CRC32 an arbitrary function (uninterpreted). -/
+theorem tombstone_file_roundtrip (crc : Bytes → UInt32) (st : Stones) (h : WF st) :
+    readFile crc (encodeFile crc st) = .ok st :=
+  readFile_encodeFile crc st h
+
+open Prom.Tombstones in
+theorem uvarint_roundtrip (x : Nat) (rest : Bytes) (hx : x < 2 ^ 64) :
+    getUvarint (putUvarint x ++ rest) = some (x, rest) := getUvarint_put x rest hx
+
+open Prom.Tombstones in
+theorem varint_roundtrip (x : Int) (rest : Bytes) (hx : I64 x) :
+    getVarint (putVarint x ++ rest) = some (x, rest) := getVarint_put x rest hx
+
+open Prom.Tombstones in
+/-- A well-formed store with the extreme reference and extreme timestamps. -/
+example : WF [(0, [⟨MinI64, -5⟩, ⟨3, 4⟩]), (2 ^ 64 - 1, [⟨7, MaxI64⟩])] := by
+  refine ⟨by decide, ?_⟩
+  intro p hp
+  simp only [List.mem_cons, List.mem_nil_iff, or_false] at hp
+  rcases hp with rfl | rfl
+  · refine ⟨by decide, by simp, by decide, ?_⟩
+    intro x hx
+    simp only [List.mem_cons, List.mem_nil_iff, or_false] at hx
+    rcases hx with rfl | rfl <;> simp [I64, MinI64, MaxI64]
+  · refine ⟨by decide, by simp, by decide, ?_⟩
+    intro x hx
+    simp only [List.mem_cons, List.mem_nil_iff, or_false] at hx
+    rcases hx with rfl <;> simp [I64, MinI64, MaxI64]
+
+open Prom.Tombstones in
+/-- Canonicity is needed for the read-back: `Decode` re-adds every interval, so a store holding two
+    adjacent intervals (which `AddInterval` never produces) comes back merged. -/
+theorem roundtrip_needs_canonical_witness :
+    decode (encode [(1, [⟨1, 2⟩, ⟨3, 4⟩])]) = .ok [(1, [⟨1, 4⟩])] := by rfl
+
+open Prom.Tombstones in
+/-- Observed in the real code (reproduced by suite `tombfile`): a tombstones file of exactly 8 bytes
+    that starts with the magic number makes `ReadTombstones` panic (`d.Get()[1:]` on an empty body)
+    instead of returning an error. Such a file is never produced by `WriteFile`. -/
+theorem read_8_byte_file_panics_witness (crc : Bytes → UInt32) (c : Bytes) (hc : c.length = 4) :
+    readFile crc (be32 magic ++ c) = .error .panic := by
+  have hm : be32dec (be32 magic) = magic := be32dec_be32 magic (by decide)
+  have hl : (be32 magic ++ c).length = 8 := by simp [be32_length, hc]
+  unfold readFile
+  rw [hl]
+  have ht : (be32 magic ++ c).take (8 - 4) = be32 magic := by
+    rw [List.take_append_of_le_length (by simp [be32_length])]
+    exact List.take_of_length_le (by simp [be32_length])
+  simp only [ht]
+  rw [if_neg (by omega), if_neg (by simp [be32_length])]
+  have ht4 : (be32 magic).take 4 = be32 magic := List.take_of_length_le (by simp [be32_length])
+  rw [ht4, hm]
+  simp only [ne_eq, not_true_eq_false, if_false]
+  have hd : (be32 magic).drop 4 = [] := List.drop_of_length_le (by simp [be32_length])
+  rw [hd]
+  rfl
+
+open Prom.Tombstones in
+/-- `TruncateBefore(t)` on a canonical group drops exactly the intervals lying entirely before `t`;
+    the result is canonical, no deletion at or after `t` is lost, none is invented. -/
+theorem truncate_before_exact (t : Int) (ivs : Intervals) (hc : Canon ivs) :
+    truncIvs t ivs = ivs.filter (fun iv => decide (t ≤ iv.maxt)) ∧ Canon (truncIvs t ivs) ∧
+    (∀ t', t ≤ t' → (covers (truncIvs t ivs) t' ↔ covers ivs t')) ∧
+    (∀ t', covers (truncIvs t ivs) t' → covers ivs t') :=
+  ⟨truncIvs_eq_filter t ivs hc, truncIvs_covers t ivs hc⟩
+
+open Prom.Tombstones in
+example : Canon [⟨1, 2⟩, ⟨4, 9⟩, ⟨20, 30⟩] ∧ truncIvs 5 [⟨1, 2⟩, ⟨4, 9⟩, ⟨20, 30⟩] = [⟨4, 9⟩, ⟨20, 30⟩] := by decide
 
 end Prom.C20
